@@ -135,3 +135,16 @@ def describe(spec):
               anchor=[l.get('anchor') for l in spec['links']],
               geom=[l['geom']['type'] if 'geom' in l else None
                     for l in spec['links']])
+
+
+def maximal_supported(kind):
+  """Joint stacks the maximal-coordinate pipelines (spring, positional) and
+  kinematics.inverse represent faithfully: free, all hinges, all slides, or
+  slides followed by ONE hinge (the class named in C08's quantifier)."""
+  import re
+  return kind == 'F' or set(kind) <= {'H'} or set(kind) <= {'S'} or bool(
+      re.fullmatch('S+H', kind))
+
+
+def all_supported(spec):
+  return all(maximal_supported(l['kind']) for l in spec['links'])
